@@ -362,6 +362,7 @@ class ExecSim(object):
         self.spawned_at = dict()
         self.hits  = set()
         self.cancel_requested = dict()     # uid -> seq of the request
+        self.startup_late     = set()      # 'started' reported (too) late
         self.cancel_faults    = set()      # uids whose late-cancel kill raised
         self.notes = list()
 
@@ -623,6 +624,11 @@ class ExecSim(object):
                         _real_sleep(0.002)
                     _real_sleep(0.03)     # the script reaches its report line
                     for u in uids:
+                        # on a loaded machine the report may come too late:
+                        # the executor then enforces the limit, rightly
+                        lim = self.specs[u].get('startup_limit', 3.0)
+                        if time.time() - self.spawned_at.get(u, 0) > 0.5 * lim:
+                            self.startup_late.add(u)
                         self.env.publish(rpc.CONTROL_PUBSUB,
                                          {'cmd': 'task_startup_done',
                                           'arg': {'uid': u}})
@@ -756,6 +762,7 @@ class ExecSim(object):
                 r['dropped'] = True
             r['pid']       = self.pids.get(u)
             r['cancel_req'] = u in self.cancel_requested or \
+                              u in self.startup_late or \
                               (bool(self.specs[u]['timeout']) and
                                not self.specs[u].get('timeout_generous'))
         return rec
